@@ -184,3 +184,81 @@ impl Model for PX {
         json!({"returned": true, "same_as_sequential": true})
     }
 }
+
+// ------------------------------------------------------------------------------------------------
+// L3: schedules observed through the verif-hooks event log, validated by Trace_ParallelExec.tla.
+
+/// `vh parrec --dir D --runs R --seed S`: for each of a fixed list of configurations, one NDJSON file: a header record with the
+/// constants of ParallelExec.tla (and the sequential path's verdicts), then R runs of execute_parallel as event records.
+pub fn cmd_parrec(args: &crate::core::Args) -> i32 {
+    use rust_rule_engine::verif_hooks::{events_start, events_take};
+    use std::io::Write;
+    let dir = args.str("dir", "par_traces");
+    let runs = args.u64("runs", 20);
+    let seed = args.u64("seed", 1);
+    std::fs::create_dir_all(&dir).unwrap();
+    // (n, salience pattern, disabled pattern, max_threads, min_rules_per_thread)
+    let configs: [(usize, u64, u64, usize, usize); 14] = [
+        (3, 1, 0, 2, 1), (5, 1, 0, 2, 1), (5, 1, 0, 3, 2), (8, 2, 0, 3, 1), (8, 3, 1, 4, 2), (6, 1, 2, 2, 1), (7, 4, 0, 4, 1),
+        (13, 3, 0, 4, 2), (13, 1, 1, 16, 1), (24, 2, 0, 8, 3), (24, 1, 0, 5, 4), (2, 1, 0, 2, 1), (9, 2, 2, 3, 2), (12, 3, 1, 3, 1),
+    ];
+    let (mut files, mut events_total, mut runs_total) = (0usize, 0usize, 0u64);
+    for (ci, &(n, pat, dis, threads, minper)) in configs.iter().enumerate() {
+        let mut arrivals = HashMap::new();
+        for i in 0..n {
+            arrivals.insert(salience(i, n, pat), AtomicUsize::new(0));
+        }
+        let shared = Arc::new(Shared { mode: AtomicUsize::new(0), tick: AtomicU64::new(seed.wrapping_mul(0x2545F4914F6CDD1D) ^ (ci as u64) << 24), arrivals });
+        let k = Knobs { deep: 0, variant: 0 };
+        let reference = match run_once(n, pat, dis, threads, minper, false, &shared, k, None) {
+            Ok(r) => r,
+            Err(_) => continue,
+        };
+        let top = (0..n).map(|i| salience(i, n, pat)).max().unwrap_or(0);
+        let enabled = |i: usize| match dis { 1 => (i + 1) % 5 != 0, 2 => salience(i, n, pat) != top || pat == 1 && i % 2 == 0, _ => true };
+        let verdict: Vec<bool> = (0..n).map(|i| reference.0.iter().any(|(nm, f)| *nm == format!("r{}", i) && *f)).collect();
+        let header = json!({"n": n, "threads": threads, "minper": minper, "par": true,
+                            "sal": (0..n).map(|i| salience(i, n, pat)).collect::<Vec<_>>(),
+                            "disabled": (0..n).filter(|&i| !enabled(i)).map(|i| i + 1).collect::<Vec<_>>(),
+                            "verdict": verdict});
+        let path = format!("{}/cfg_{:02}.ndjson", dir, ci);
+        let mut f = std::io::BufWriter::new(std::fs::File::create(&path).unwrap());
+        writeln!(f, "{}", header).unwrap();
+        let rec = |e: &str, w: usize, rule: usize, fired: bool, sal: i64, n: usize, par: bool, nfired: usize| {
+            json!({"e": e, "w": w, "rule": rule, "fired": fired, "sal": sal, "n": n, "par": par, "nfired": nfired})
+        };
+        for r in 0..runs {
+            shared.mode.store((r % 2) as usize, Ordering::Relaxed);
+            if r > 0 {
+                writeln!(f, "{}", rec("run", 0, 0, false, 0, 0, false, 0)).unwrap();
+            }
+            events_start();
+            let res = run_once(n, pat, dis, threads, minper, true, &shared, k, None);
+            let evs = events_take();
+            if res.is_err() {
+                writeln!(f, "{}", rec("error", 0, 0, false, 0, 0, false, 0)).unwrap();
+                continue;
+            }
+            let mut cur_sal = 0i64;
+            for line in evs {
+                let p: Vec<&str> = line.split(' ').collect();
+                let num = |k: usize| p.get(k).and_then(|x| x.parse::<i64>().ok()).unwrap_or(0);
+                let rj = match p[0] {
+                    "level" => { cur_sal = num(1); rec("level", 0, 0, false, cur_sal, num(2) as usize, p.get(3) == Some(&"true"), 0) }
+                    "eval" => rec("eval", num(1) as usize + 1, p[2].trim_start_matches('r').parse::<usize>().map(|i| i + 1).unwrap_or(0), p.get(3) == Some(&"true"), 0, 0, false, 0),
+                    "lock" => rec("lock", num(1) as usize + 1, 0, false, 0, 0, false, 0),
+                    "extend" => rec("extend", num(1) as usize + 1, 0, false, 0, num(2) as usize, false, 0),
+                    "join" => rec("join", 0, 0, false, cur_sal, num(1) as usize, false, 0),
+                    "return" => rec("return", 0, 0, num(2) > 0, 0, num(1) as usize, false, num(2) as usize),
+                    _ => rec("unknown", 0, 0, false, 0, 0, false, 0),
+                };
+                events_total += 1;
+                writeln!(f, "{}", rj).unwrap();
+            }
+            runs_total += 1;
+        }
+        files += 1;
+    }
+    println!("{}", json!({"files": files, "runs": runs_total, "events": events_total}));
+    0
+}
